@@ -51,6 +51,9 @@ struct WireState {
     /// > 0: a write takes at most this many bytes, and every other call is Pending (+ wake)
     wcap: usize,
     wtoggle: bool,
+    /// Some(b): the client accepts b more bytes, then writes are Pending until the budget is raised
+    wbudget: Option<usize>,
+    wwaker: Option<Waker>,
 }
 
 #[derive(Clone, Default)]
@@ -86,6 +89,14 @@ impl AsyncWrite for Wire {
             g.write_after_shut = true;
         }
         let mut n = data.len();
+        if let Some(b) = g.wbudget {
+            if b == 0 {
+                g.wwaker = Some(cx.waker().clone());
+                return Poll::Pending;
+            }
+            n = n.min(b);
+            g.wbudget = Some(b - n);
+        }
         if g.wcap > 0 {
             g.wtoggle = !g.wtoggle;
             if g.wtoggle {
@@ -127,6 +138,9 @@ impl Wake for Flag {
 
 #[derive(Default)]
 struct Sess {
+    /// the caller drops a pending listen() and calls it again on `resume`
+    cancel: Arc<Notify>,
+    resume: Arc<Notify>,
     stream: Option<VStream>,
     produced: u64,
     /// None while running
@@ -137,7 +151,21 @@ struct Sess {
 /// after every stream, stop on `None`/error, and on the endpoint's shutdown drop the pending
 /// `listen()` and call `graceful_shutdown()`.
 async fn session(mut codec: VHttp1Codec, sh: Arc<Mutex<Sess>>, stop: Arc<Notify>) {
+    let (cancel, resume) = { let g = sh.lock().unwrap(); (g.cancel.clone(), g.resume.clone()) };
+    let mut idle = false;
     loop {
+        if idle {
+            // listen() was dropped: nothing polls the codec until the caller comes back
+            tokio::select! {
+                biased;
+                _ = stop.notified() => {
+                    let r = codec.graceful_shutdown().await;
+                    sh.lock().unwrap().res = Some(r.map_err(|e| e.to_string()));
+                    break;
+                }
+                _ = resume.notified() => { idle = false; continue; }
+            }
+        }
         tokio::select! {
             biased;
             _ = stop.notified() => {
@@ -145,6 +173,7 @@ async fn session(mut codec: VHttp1Codec, sh: Arc<Mutex<Sess>>, stop: Arc<Notify>
                 sh.lock().unwrap().res = Some(r.map_err(|e| e.to_string()));
                 break;
             }
+            _ = cancel.notified() => { idle = true; continue; }
             r = codec.listen() => match r {
                 Ok(Some(s)) => {
                     let mut g = sh.lock().unwrap();
@@ -469,6 +498,95 @@ impl Sim {
     fn finish(mut self) {
         // a poisoned future has been forgotten already; everything else drops normally
         self.fut.take();
+    }
+}
+
+// ---------------------------------------------------------------------------------------------
+// the download path under back-pressure, dropped listen() futures and graceful shutdown
+// (Http1Down.tla): every behaviour TLC printed is replayed on the real codec
+
+fn down_byte(c: usize, o: usize) -> u8 {
+    (c * 16 + o) as u8
+}
+
+async fn replay_down(rep: &mut Report, st: &Arc<Settings>, file: &str) {
+    for v in read_tagged(file, "H1D") {
+        rep.eval();
+        let chunks: Vec<usize> = v["chunks"].as_array().unwrap().iter().map(|x| x.as_u64().unwrap() as usize).collect();
+        let hist = v["hist"].as_array().unwrap();
+        let evname = |e: &Value| -> String { if e.is_array() { format!("Open{}", e[1]) } else { e.as_str().unwrap().to_string() } };
+        let names: Vec<String> = hist.iter().map(|h| evname(&h["ev"])).collect();
+        let ncancel = names.iter().filter(|n| *n == "Cancel").count();
+        rep.nontrivial(names.join(","));
+        let all: Vec<u8> = (1..=chunks.len()).flat_map(|c| (1..=chunks[c - 1]).map(move |o| down_byte(c, o))).collect();
+        let class = format!("{}{}", if ncancel > 0 { "cancel" } else { "plain" }, if names.iter().position(|n| n == "Shutdown").map(|i| names[..i].iter().filter(|n| *n == "SinkWrite").count() >= 2).unwrap_or(false) { ":two-chunks-at-shutdown" } else { "" });
+        let mut sim = Sim::new(st);
+        let detail = |step: usize, what: String, got: &[u8]| json!({"kind": "http1-download", "behaviour": v, "step": step, "what": what, "client_received": got.iter().map(|b| format!("{}.{}", b / 16, b % 16)).collect::<Vec<_>>()});
+        let fail = |rep: &mut Report, sig: &str, step: usize, what: String, got: &[u8]| {
+            rep.violation_with(format!("http1-down:{}:{}", sig, class), what.clone(), || detail(step, what.clone(), got));
+        };
+        // establish: CONNECT, 200
+        let r: Result<usize, Trouble> = (|| {
+            sim.pump()?;
+            sim.deliver(b"CONNECT example.org:443 HTTP/1.1\r\nHost: example.org:443\r\n\r\n");
+            sim.pump()?;
+            sim.drain()?;
+            sim.respond_ok(false)?;
+            sim.pump()?;
+            Ok(sim.wire.0.lock().unwrap().out.len())
+        })();
+        let h0 = match r {
+            Ok(n) if n > 0 => n,
+            Ok(_) => { fail(rep, "setup", 0, "no response head was written".into(), &[]); sim.finish(); continue; }
+            Err(t) => { fail(rep, "setup", 0, match t { Trouble::Spin(n) => format!("spin {}", n), Trouble::Panic(p) => format!("panic {}", p), Trouble::Op(e) => e }, &[]); sim.finish(); continue; }
+        };
+        sim.wire.0.lock().unwrap().wbudget = Some(0);
+        let mut written = 0usize;
+        let mut bad = false;
+        for (i, h) in hist.iter().enumerate() {
+            let got: Vec<u8> = sim.wire.0.lock().unwrap().out[h0..].to_vec();
+            let want = h["tx"].as_u64().unwrap() as usize;
+            if got.len() != want || got[..] != all[..want.min(all.len())] {
+                fail(rep, if got.len() < want || !all.starts_with(&got) { "lost" } else { "ahead" }, i,
+                     format!("before step {} ({}) the client has received {} download bytes, Http1Down.tla says {}{}", i, names[i], got.len(), want, if all.starts_with(&got) { "" } else { "; they are not a prefix of what the sink wrote (gap / reordering)" }), &got);
+                bad = true;
+                break;
+            }
+            let r: Result<(), Trouble> = (|| {
+                match names[i].as_str() {
+                    "SinkWrite" => { written += 1; let data: Vec<u8> = (1..=chunks[written - 1]).map(|o| down_byte(written, o)).collect(); sim.down_write(&data)?; }
+                    "Cancel" => sim.sess.lock().unwrap().cancel.notify_one(),
+                    "Relisten" => sim.sess.lock().unwrap().resume.notify_one(),
+                    "Shutdown" => sim.stop.notify_one(),
+                    _ => {
+                        let k = h["ev"][1].as_u64().unwrap() as usize;
+                        let w = { let mut g = sim.wire.0.lock().unwrap(); g.wbudget = Some(g.wbudget.unwrap_or(0) + k); g.wwaker.take() };
+                        if let Some(w) = w { w.wake(); }
+                    }
+                }
+                // the notifications wake the session through its own waker only once it is polled
+                sim.flag.0.store(true, Ordering::SeqCst);
+                sim.pump()
+            })();
+            if let Err(t) = r {
+                let what = match t { Trouble::Spin(n) => format!("the session woke itself {} times without progress", n), Trouble::Panic(p) => format!("panic: {}", p), Trouble::Op(e) => e };
+                fail(rep, "op", i, format!("step {} ({}): {}", i, names[i], what), &got);
+                bad = true;
+                break;
+            }
+        }
+        if !bad {
+            let got: Vec<u8> = sim.wire.0.lock().unwrap().out[h0..].to_vec();
+            let want = v["tx"].as_u64().unwrap() as usize;
+            let shut = sim.wire.0.lock().unwrap().shut;
+            if got.len() != want || got[..] != all[..want.min(all.len())] {
+                fail(rep, if all.starts_with(&got) { "lost-at-close" } else { "gap-at-close" }, hist.len(),
+                     format!("after the graceful shutdown the client has received {} download bytes, Http1Down.tla says {} (everything queued when the shutdown began){}", got.len(), want, if all.starts_with(&got) { "" } else { "; not a prefix of what the sink wrote" }), &got);
+            } else if sim.res() != "closed" || !shut {
+                fail(rep, "not-closed", hist.len(), format!("the session did not end with a flushed, shut-down transport: result {} {}, transport shut down: {}", sim.res(), sim.err_text(), shut), &got);
+            }
+        }
+        sim.finish();
     }
 }
 
@@ -1363,8 +1481,18 @@ fn main() {
     quiet_panics();
     logcap::install();
     logcap::plant("proxy-authorization", "dmVyaWY6aHR0cDFzZWNyZXQ=", &["http1secret"]);
-    let vectors = arg("--vectors").expect("--vectors");
     let out_path = arg("--out").expect("--out");
+    if let Some(df) = arg("--down") {
+        let mut rep = Report::new("c08-down");
+        watchdog::arm(&out_path, Duration::from_secs(10));
+        trusttunnel::verif::start_recording();
+        let st = settings();
+        let rt = tokio::runtime::Builder::new_current_thread().enable_time().start_paused(true).build().unwrap();
+        rt.block_on(async { replay_down(&mut rep, &st, &df).await; });
+        DONE.store(1, Ordering::SeqCst);
+        rep.finish(&out_path);
+    }
+    let vectors = arg("--vectors").expect("--vectors");
     let thorough = tier_thorough();
     let tot = std::env::args().any(|a| a == "--totality");
     let mut rep = Report::new(if tot { "c09_http1" } else { "c08" });
